@@ -95,7 +95,7 @@ def run(tier, seed):
     ctx = core.Ctx(PID, tier, seed, LEVEL)
     rng = ctx.rng
     maxlen = 5 if tier == "quick" else 6
-    nsess = 400 if tier == "quick" else core.share(8000)
+    nsess = 400 if tier == "quick" else core.share(32000)
     nsplit = 4
     ctx.rule = ("(i) every string of length <= %d over the alphabet %r: the REPL's submission test vs token-level depth (exhaustive); (ii) %d random sessions of forms from the core and "
                 "derived-form generators plus failing forms, display calls and literals containing brackets/semicolons/quotes, each fed to the real binary under %d random line "
